@@ -30,16 +30,18 @@ Lemma flat_map_nil {A B} (f : A -> list B) l : (forall x, In x l -> f x = []) ->
 Proof. induction l as [|a l IH]; intros H; [reflexivity|]. cbn [flat_map]. rewrite (H a (or_introl eq_refl)), IH; [reflexivity|]. intros x Hx. apply H. right. exact Hx. Qed.
 Lemma star_digits p s x : forallb is_digit s = true -> In x (star p s) -> forallb is_digit x = true.
 Proof. intros D Hx. destruct (star_prefix p s x Hx) as (pre & -> & _). rewrite forallb_app in D. apply andb_prop in D. apply D. Qed.
-Lemma digit_not_file c : is_digit c = true -> is_file_letter c = false.
-Proof. rewrite is_digit_spec. intros H. unfold is_file_letter. destruct (97 <=? c) eqn:E; [apply N.leb_le in E; lia|reflexivity]. Qed.
+Lemma digit_not_file c : is_digit c = true -> in_ranges cls_file c = false.
+Proof. rewrite is_digit_spec. intros H. unfold in_ranges, cls_file. cbn [existsb fst snd]. destruct (97 <=? c) eqn:E; [apply N.leb_le in E; lia|reflexivity]. Qed.
 Lemma ms_moves_digits s : forallb is_digit s = true -> ms moves_re s = [].
 Proof.
-  intros D. unfold moves_re. cbn [ms].
+  intros D. change moves_re with (Seq (Alt piece_move_re castle_re) suffix_re). cbn [ms].
   assert (E : ms piece_move_re s ++ ms castle_re s = []); [|rewrite E; reflexivity].
   assert (E2 : ms castle_re s = []).
-  { unfold castle_re. cbn [ms]. destruct s as [|c s]; [reflexivity|]. cbn [forallb] in D. apply andb_prop in D. destruct D as [D _].
-    apply is_digit_spec in D. change (B "O-O") with [79; 45; 79]. cbn [lit]. destruct (79 =? c) eqn:E; [apply N.eqb_eq in E; lia|reflexivity]. }
-  rewrite E2, app_nil_r. unfold piece_move_re. cbn [ms].
+  { change castle_re with (Seq (Lit [79; 45; 79]) (Opt (Lit [45; 79]))). cbn [ms]. destruct s as [|c s]; [reflexivity|]. cbn [forallb] in D. apply andb_prop in D. destruct D as [D _].
+    apply is_digit_spec in D. cbn [lit]. destruct (79 =? c) eqn:E; [apply N.eqb_eq in E; lia|reflexivity]. }
+  rewrite E2, app_nil_r.
+  change piece_move_re with (Seq (StarC (in_ranges cls_piece)) (Seq (StarC (in_ranges cls_file)) (Seq (StarC (in_ranges cls_rank)) (Seq (StarC (in_ranges cls_x))
+                              (Seq (Cls (in_ranges cls_file)) (Cls (in_ranges cls_rank))))))). cbn [ms].
   apply flat_map_nil. intros x1 H1. pose proof (star_digits _ _ _ D H1) as D1.
   apply flat_map_nil. intros x2 H2. pose proof (star_digits _ _ _ D1 H2) as D2.
   apply flat_map_nil. intros x3 H3. pose proof (star_digits _ _ _ D2 H3) as D3.
@@ -54,7 +56,7 @@ Proof.
 Qed.
 Lemma ms_result_digits s : forallb is_digit s = true -> ms result_re s = [].
 Proof.
-  intros D. unfold result_re. cbn [ms]. change (B "1-0") with [49; 45; 48]. change (B "0-1") with [48; 45; 49]. change (B "1/2-1/2") with [49; 47; 50; 45; 49; 47; 50].
+  intros D. change result_re with (Alt (Lit [49; 45; 48]) (Alt (Lit [48; 45; 49]) (Lit [49; 47; 50; 45; 49; 47; 50]))). cbn [ms].
   rewrite !lit3_digits by (auto; exact D). reflexivity.
 Qed.
 Lemma scan_nothing r s : (forall t, forallb is_digit t = true -> ms r t = []) -> forallb is_digit s = true -> forall k, scan r s k = [].
@@ -95,6 +97,18 @@ Proof.
 Qed.
 Lemma scan_spaces k tail : scan r (repeat 32 k ++ tail) 0 = scan r tail 0.
 Proof. induction k as [|k IH]; [reflexivity|]. cbn [repeat app]. change (32 :: repeat 32 k ++ tail) with ([] ++ 32 :: (repeat 32 k ++ tail)). rewrite scan_cut by reflexivity. exact IH. Qed.
+Lemma scan_skip c rest : sep c = true -> scan r (c :: rest) 0 = scan r rest 0.
+Proof. intros H. change (c :: rest) with ([] ++ c :: rest). rewrite (scan_cut [] c rest H). reflexivity. Qed.
+Lemma scan_movelist_any ws sans : scan r (movelist ws sans) 0 = List.concat (map (fun s => scan r s 0) sans).
+Proof.
+  unfold movelist. destruct ws.
+  - rewrite <- (app_nil_r (movelist_from true 1 sans)), scan_movelist. cbn [scan]. apply app_nil_r.
+  - destruct sans as [|s sans]; [reflexivity|]. change (B "1. ... ") with [49; 46; 32; 46; 46; 46; 32]. change (B " ") with [32]. cbn [app map List.concat].
+    change (49 :: 46 :: 32 :: 46 :: 46 :: 46 :: 32 :: s ++ 32 :: movelist_from true 2 sans) with ([49] ++ 46 :: 32 :: 46 :: 46 :: 46 :: 32 :: s ++ 32 :: movelist_from true 2 sans).
+    rewrite (scan_cut [49] 46) by reflexivity. rewrite (scan_nothing r [49] r_digits eq_refl). cbn [app].
+    rewrite !scan_skip by reflexivity. rewrite (scan_cut s 32) by reflexivity.
+    rewrite <- (app_nil_r (movelist_from true 2 sans)), scan_movelist. cbn [scan]. rewrite app_nil_r. reflexivity.
+Qed.
 Lemma scan_trim s : scan r (trim_end s) 0 = scan r s 0.
 Proof.
   destruct (trim_end_split s) as [k E]. rewrite E at 2. destruct k as [|k]; [cbn [repeat]; rewrite app_nil_r; reflexivity|].
@@ -355,4 +369,11 @@ Proof.
   unfold Rb. split; intros [H|[H1 H2]]; auto; right.
   - split; apply blank_cases; assumption.
   - split; [destruct H1 as [->| ->]|destruct H2 as [->| ->]]; reflexivity.
+Qed.
+
+(* the rendered move list is a list of separately delimited tokens: the move pattern recovers exactly the SAN texts *)
+Lemma movelist_tokens ws sans : SansOk sans -> scan_moves (movelist ws sans) = sans.
+Proof.
+  intros S. unfold scan_moves. rewrite (scan_movelist_any moves_re sep_barrier_moves eq_refl ms_moves_digits).
+  rewrite (map_scan_ext _ (fun s => [s]) sans); [apply concat_singletons|]. eapply Forall_impl; [|exact S]. intros s Hs. exact (proj1 (san_ok_spec s Hs)).
 Qed.
